@@ -16,6 +16,7 @@ RULE = ('the five shipped curves and random axis-parallel polygons accepted by t
         'contains its interval, every slab of a closed curve has >= 3 leaves around, two leaves share <= 1 end point. '
         'distinct = distinct (curve, parameter) evaluations + distinct (curve, grids, history) meshes')
 RULE += ' ' + 'Every second random polygon is re-checked after the caller has shifted its vertex arrays in place and built another polygon from them (the curve is a value).'
+RULE += ' ' + 'Vector arguments are passed ascending, descending, shuffled and as short interleaved vectors (first and last entry on one piece, entries in between on others).'
 ASSUMPTIONS = [
     'absolute tolerance 16*eps*max(1, L, |vertex|) on coordinates (cos/sin and the affine map are each good to a few ulp)',
     'polygons that the constructor rejects by assertion are outside the quantifier (counted, not judged), except polygons '
@@ -24,7 +25,7 @@ ASSUMPTIONS = [
     'initial space grids contain every break point (precondition stated in the property)',
 ]
 REQUIRED = {t: ['curve:UnitSquare', 'curve:PiSquare', 'curve:LShape', 'curve:Circle', 'curve:UnitInterval',
-                'curve:random-polygon', 'curve:polygon-after-caller-reuses-its-arrays', 'param:breakpoint', 'param:breakpoint+-ulp', 'param:ends', 'param:vector-multi-piece',
+                'curve:random-polygon', 'curve:polygon-after-caller-reuses-its-arrays', 'param:breakpoint', 'param:breakpoint+-ulp', 'param:ends', 'param:vector-multi-piece', 'param:vector-interleaved', 'param:vector-descending',
                 'mesh:slabs>=3', 'mesh:closed-one-piece', 'mesh:extra-space-points', 'mesh:grid-graded-to-break-point', 'mesh:refined']
             for t in ('quick', 'thorough')}
 TIMEOUT = {'quick': 600, 'thorough': 3600}
@@ -162,25 +163,41 @@ def check_curve(acc, gamma, name, rng, n_params, verts, wit, cls):
         acc.case('%s|eval|%r' % (name, x), None)
         if val.shape != (2, ) or not any(np.array_equal(val, c) for c in cands):
             viol('eval-differs-from-piece', 'eval(%r)=%r, containing piece(s) give %r' % (x, val.tolist(), [c.tolist() for c in cands]), {'x': x})
-    # vector evaluation spanning pieces
-    xs = np.array(sorted(p for p, _ in params))
-    try:
-        V = np.asarray(gamma.eval(xs), dtype=float)
-        acc.seen('param:vector-multi-piece')
-        if V.shape != (2, len(xs)):
-            viol('eval-vector-shape', 'eval(vector) has shape %r' % (V.shape, ))
-        else:
-            for k, x in enumerate(xs):
-                cands = [np.asarray(gamma.pw_gamma[i](x), dtype=float).reshape(-1) for i in pieces_of(float(x))]
-                if not any(np.array_equal(V[:, k], c) for c in cands):
-                    viol('eval-differs-from-piece', 'vector eval at %r gives %r' % (float(x), V[:, k].tolist()), {'x': float(x)})
-                    break
-        acc.case('%s|vector' % name, None)
-    except Exception as ex:
-        from ..monitor import repo_frame
-        if repo_frame(ex) is None:
-            raise
-        viol('eval-raised', 'eval(vector) raised %s' % type(ex).__name__)
+    # vector evaluation spanning pieces, in several arrangements: ascending, descending, shuffled, and short vectors whose first and last
+    # entries lie on one piece while entries in between lie on others (nothing promises callers pass sorted parameters)
+    base = sorted(p for p, _ in params)
+    arrangements = [('ascending', base), ('descending', base[::-1])]
+    sh = list(base)
+    rng.shuffle(sh)
+    arrangements.append(('shuffled', sh))
+    if npieces > 1:
+        for _ in range(6):
+            i, j = rng.sample(range(npieces), 2)
+            a_, b_ = starts[i], starts[i + 1]
+            c_, d_ = starts[j], starts[j + 1]
+            inner = [rng.uniform(c_, d_) for _ in range(rng.randint(1, 3))] + ([rng.uniform(0, L)] if rng.random() < 0.5 else [])
+            arrangements.append(('interleaved', [rng.uniform(a_, b_)] + inner + [rng.uniform(a_, b_)]))
+    for aname, seq in arrangements:
+        xs = np.array(seq, dtype=float)
+        try:
+            V = np.asarray(gamma.eval(xs), dtype=float)
+            acc.seen('param:vector-multi-piece')
+            acc.seen('param:vector-' + aname)
+            if V.shape != (2, len(xs)):
+                viol('eval-vector-shape', 'eval(vector) has shape %r' % (V.shape, ))
+            else:
+                for k, x in enumerate(xs):
+                    cands = [np.asarray(gamma.pw_gamma[i](x), dtype=float).reshape(-1) for i in pieces_of(float(x))]
+                    if not any(np.array_equal(V[:, k], c) for c in cands):
+                        viol('eval-differs-from-piece', 'vector eval (%s parameters) at %r gives %r' % (aname, float(x), V[:, k].tolist()),
+                             {'x': float(x), 'arrangement': aname, 'vector': [float(v) for v in xs[:8]]})
+                        break
+            acc.case('%s|vector|%s|%r' % (name, aname, float(xs[0])), None)
+        except Exception as ex:
+            from ..monitor import repo_frame
+            if repo_frame(ex) is None:
+                raise
+            viol('eval-raised', 'eval(vector, %s) raised %s' % (aname, type(ex).__name__))
     # out-of-range parameters are refused
     for x in (-1e-9, L * (1 + 1e-9) + 1e-9):
         try:
